@@ -10,3 +10,10 @@ pub(crate) use send_blocks_proof::{verify_extra_hash, SendBlocksProofProcess};
 pub(crate) use send_last_state::SendLastStateProcess;
 pub(crate) use send_last_state_proof::{verify_mmr_proof, SendLastStateProofProcess};
 pub(crate) use send_transactions_proof::SendTransactionsProofProcess;
+
+// Re-exports for the verification harness (only with `--features verif`).
+#[cfg(feature = "verif")]
+#[allow(unused_imports)]
+pub(crate) mod verif_exports {
+    pub(crate) use super::send_last_state_proof::*;
+}
